@@ -322,7 +322,24 @@ def rule_fresh_objects(ctx: Ctx) -> None:
     P = ctx.prog
     pl, npf = P.cls(f"{BASE}.Pipeline"), P.cls(f"{PFM}.NestedPipeFunc")
     appenders = sorted({fn.qualname for fn in P.functions.values() for c in walk_no_nested(fn.node) if isinstance(c, ast.Call) and isinstance(c.func, ast.Attribute) and c.func.attr in ("append", "extend", "insert") and norm(c.func.value).endswith(".functions")})
-    extra = [a for a in appenders if a != f"{BASE}.Pipeline.add"]
+    # ... or where the appended object is, like in add(), a copy made on the spot that is registered with the pipeline
+    def like_add(q: str) -> bool:
+        fn = P.functions[q]
+        if fn.cls is None or fn.cls.qualname != pl.qualname:
+            return False
+        for c in walk_no_nested(fn.node):
+            if isinstance(c, ast.Call) and isinstance(c.func, ast.Attribute) and c.func.attr == "append" and norm(c.func.value) == "self.functions" and c.args and isinstance(c.args[0], ast.Name):
+                nm = c.args[0].id
+                copied = any(isinstance(a_, (ast.Assign, ast.AnnAssign)) and any(isinstance(t, ast.Name) and t.id == nm for t in (a_.targets if isinstance(a_, ast.Assign) else [a_.target])) and isinstance(a_.value, ast.Call)
+                             and (norm(a_.value.func).endswith(".copy") or dotted(a_.value.func).rsplit(".", 1)[-1] == "PipeFunc") for a_ in walk_no_nested(fn.node))
+                registered = any(isinstance(r_, ast.Call) and isinstance(r_.func, ast.Attribute) and r_.func.attr == "add" and norm(r_.func.value) == f"{nm}._pipelines" for r_ in walk_no_nested(fn.node))
+                if not (copied and registered):
+                    return False
+            elif isinstance(c, ast.Call) and isinstance(c.func, ast.Attribute) and c.func.attr in ("extend", "insert") and norm(c.func.value).endswith(".functions"):
+                return False
+        return True
+
+    extra = [a for a in appenders if a != f"{BASE}.Pipeline.add" and not like_add(a)]
     ctx.add("7-fresh-objects", f"{BASE}.Pipeline.functions", "", not extra, "functions are appended only in Pipeline.add" if not extra else f"functions are also appended in {extra}: they enter a pipeline without the copy / registration / validation of Pipeline.add", key="appenders")
     ad = pl.methods["add"]
     cfg = ctx.cfg(ad)
@@ -428,6 +445,37 @@ def rule_scope_inputs_are_root_args(ctx: Ctx) -> None:
                 "the edge is cut and the consumer silently uses its default (or a root argument appears that nobody asked for)", "the names handed on as inputs were not recognised", key="scope-inputs-root-args")
     if not n:
         ctx.add("1-name-space", fn, fn.node, None, "UNDECIDED: the per-function update_scope call was not found", key="scope-inputs-root-args")
+
+
+def rule_nested_is_a_pipefunc(ctx: Ctx) -> None:
+    """A NestedPipeFunc stands wherever a PipeFunc stands (nest_funcs puts it into the pipeline).  Its constructor does not chain
+    to PipeFunc.__init__, so every attribute that the rest of the package reads from "a function of the pipeline" has to be created
+    there too - map() reads `internal_shape` from every function while it prepares the run.  And the results of its internal
+    pipeline are picked by the INTERNAL names: the (renamable, scopable) `output_name` is what the outside calls them."""
+    from ..flow import subclass_missing_attrs
+
+    P = ctx.prog
+    miss = subclass_missing_attrs(P, f"{PFM}.PipeFunc", f"{PFM}.NestedPipeFunc")
+    nf = P.cls(f"{PFM}.NestedPipeFunc")
+    in_map = {a: [(f, x) for f, x in reads if f.module.name.startswith("pipefunc.map.") and "resources" not in a] for a, reads in miss.items()}
+    in_map = {a: r for a, r in in_map.items() if r}
+    first = next(iter(in_map.items()), None)
+    ctx.add("9-details", first[1][0][0] if first else nf.qualname, first[1][0][1] if first else nf.loc, not in_map,
+            f"NestedPipeFunc.__init__ creates every attribute that pipefunc.map reads from the functions of a pipeline ({len(miss)} attribute(s) of PipeFunc.__init__ are not created: {sorted(miss)}; none of them is read there)" if not in_map else
+            f"`{norm(first[1][0][1])}` is read from every function of the pipeline, but NestedPipeFunc.__init__ (which does not call PipeFunc.__init__) never creates `{first[0]}`: "
+            "Pipeline.map raises AttributeError for every pipeline that contains a NestedPipeFunc - nest_funcs is value-preserving under pipeline(...) only", key="nested-has-map-attributes")
+    fn = dict.get(nf.methods, "func")
+    if fn is None:
+        ctx.add("9-details", nf.qualname, nf.loc, None, "UNDECIDED: NestedPipeFunc.func not found", key="nested-picks-internal-names")
+        return
+    picks = [c for c in ast.walk(fn.node) if isinstance(c, ast.Call) and dotted(c.func).rsplit(".", 1)[-1] == "_NestedFuncWrapper" and len(c.args) >= 2]
+    if not picks:
+        ctx.add("9-details", fn, fn.node, None, "UNDECIDED: how NestedPipeFunc.func picks the results of the internal pipeline was not recognised", key="nested-picks-internal-names")
+        return
+    a1 = norm(Defs(fn).resolve(picks[0].args[1]))
+    ctx.tri("9-details", fn, picks[0], a1 in ("self._output_name",) or "pipeline" in a1, a1 == "self.output_name", "the results of the internal pipeline are picked by its own output names",
+            "`self.output_name` - the name AFTER update_renames / update_scope - selects from the results of the internal pipeline, which are keyed by the internal names: nest_funcs followed by a rename or a scope of that output "
+            "constructs fine and raises KeyError at the first call", f"selection by `{a1[:40]}` not recognised", key="nested-picks-internal-names")
 
 
 def rule_name_space(ctx: Ctx) -> None:
@@ -544,7 +592,7 @@ def fs_owner(P):
 
 
 def check(ctx: Ctx) -> None:
-    for rule in (rule_name_space, rule_scope_inputs_are_root_args, rule_bound_not_mapped, rule_copy_carries, rule_no_inplace, rule_result_keys, rule_sort_keys, rule_pickle_state, rule_foreign_writes, rule_fresh_objects, rule_details):
+    for rule in (rule_name_space, rule_nested_is_a_pipefunc, rule_scope_inputs_are_root_args, rule_bound_not_mapped, rule_copy_carries, rule_no_inplace, rule_result_keys, rule_sort_keys, rule_pickle_state, rule_foreign_writes, rule_fresh_objects, rule_details):
         ctx.run(rule)
 
 
